@@ -44,6 +44,13 @@ THEOREMS = [
     "Scenic.C01.generate_total_closed_form",
     "Scenic.C01.resample_indep",
     "Scenic.C01.rebinding",
+    "Scenic.C01.weighted_spec",
+    "Scenic.C01.uniform_star_spec",
+    "Scenic.C01.sampled_iff_reachable",
+    "Scenic.C01.prior_is_declarative",
+    "Scenic.C01.loop_is_closed_form",
+    "Scenic.C01.scene_generation_eq_declarative_semantics",
+    "Scenic.C01.hypotheses_decidable",
     # the lemmas they rest on (Lemmas/Sampler*.lean), for every configuration
     "Scenic.Sampler.mass_bind",
     "Scenic.Sampler.bind_assoc",
@@ -63,6 +70,18 @@ THEOREMS = [
     "Scenic.Sampler.mass_bindO_comm",
     "Scenic.Sampler.seqAlong_swap_head",
     "Scenic.Sampler.seqAlong_perm",
+    "Scenic.Sampler.mem_postorder_iff_reach",
+    "Scenic.Sampler.specOrder_perm",
+    "Scenic.Sampler.specOrder_closed",
+    "Scenic.Sampler.total_seqAlong",
+    "Scenic.Sampler.prior_event_indep",
+    "Scenic.Sampler.loop_eq_geomLoop",
+    "Scenic.Sampler.attempt_eq_restrict",
+    "Scenic.Sampler.generate_eq_specGenerate",
+    "Scenic.Sampler.windex_draw",
+    "Scenic.Sampler.Prog.wfB_sound",
+    "Scenic.Sampler.Prog.normalizedB_sound",
+    "Scenic.Sampler.RExpr.holds_resp",
 ]
 SIDE = ["Scenic.C01.gen_cfg_wf"]
 
@@ -1522,6 +1541,51 @@ def _corpus():
         pb = t.add("op", "tuple", [(False, t.const("b")), (False, inner)])
         t.outputs += [("p:d", t.add("op", "tuple", [(False, pa), (False, pb)]))]
     out.append(("dict-container", "x = DiscreteRange(1, 2)\nparam d = {'a': x, 'b': (x, 3)}\n", False, T(c14)))
+
+    def c15(t):   # a root that was already sampled as a dependency of an earlier root
+        x = t.add("drange", t.const(1), t.const(2))
+        b = t.add("op", "add", [(False, x), (False, t.const(1))])
+        t.outputs += [("p:b", b), ("p:a", x)]
+    out.append(("root-after-dependent", "x = DiscreteRange(1, 2)\nparam b = x + 1\nparam a = x\n", False, T(c15)))
+
+    def c16(t):   # resample of a weighted choice keeps the weights and the options, draws a fresh selector
+        o1, o2 = t.const(1), t.const(2)
+        m1 = t.add("mux", t.add("windex", [Fraction(1), Fraction(3)]), [o1, o2])
+        m2 = t.add("mux", t.add("windex", [Fraction(1), Fraction(3)]), [o1, o2])
+        t.outputs += [("p:a", t.add("op", "tuple", [(False, m1), (False, m2)]))]
+    out.append(("resample-weighted", "y = Options({1: 1, 2: 3})\nparam a = (y, resample(y))\n", False, T(c16)))
+
+    def c17(t):   # resample of a star-uniform: same option list, fresh selector
+        s = t.add("mux", t.add("selector", 2), [t.const((1, 2)), t.const((3, 4, 5))])
+
+        def star():
+            ln = t.add("op", "len", [(False, s)])
+            acc = t.add("op", "add", [(False, t.const(0)), (False, ln)])
+            return t.add("ustar", t.add("dynsel", acc), [(True, s)])
+        u1, u2 = star(), star()
+        t.outputs += [("p:a", t.add("op", "tuple", [(False, u1), (False, u2)]))]
+    out.append(("resample-star", "s = Uniform((1, 2), (3, 4, 5))\nu = Uniform(*s)\nparam a = (u, resample(u))\n",
+                False, T(c17)))
+
+    def c18(t):   # reflected, non-commutative operators; resample of a range with dependent bounds
+        x = t.add("drange", t.const(1), t.const(3))
+        a = t.add("op", "sub", [(False, t.const(5)), (False, x)])
+        hi = t.add("op", "add", [(False, x), (False, t.const(1))])
+        r1 = t.add("drange", x, hi)
+        r2 = t.add("drange", x, hi)
+        t.outputs += [("p:a", a), ("p:b", t.add("op", "tuple", [(False, r1), (False, r2)]))]
+    out.append(("reflected-and-resample-range",
+                "x = DiscreteRange(1, 3)\nparam a = 5 - x\nr = DiscreteRange(x, x + 1)\nparam b = (r, resample(r))\n",
+                False, T(c18)))
+
+    def c19(t):   # two soft requirements and a hard one that often fails: activation once per scene, not per attempt
+        x = t.add("drange", t.const(1), t.const(3))
+        t.outputs += [("p:a", x)]
+        t.reqs.append((Fraction(1, 2), ("op", "gt", [("ref", x), ("const", 1)])))
+        t.reqs.append((Fraction(1, 4), ("op", "lt", [("ref", x), ("const", 3)])))
+        t.reqs.append((Fraction(1), ("op", "ne", [("ref", x), ("const", 2)])))
+    out.append(("two-soft", "x = DiscreteRange(1, 3)\nparam a = x\nrequire[0.5] x > 1\nrequire[0.25] x < 3\nrequire x != 2\n",
+                False, T(c19)))
     return out
 
 
@@ -1656,7 +1720,16 @@ def run_cases(ctx, cases, pool, deadline=None):
             raise Infra(st)
         ctx.hist("program", st.split(":")[0] if st != "ok" else "ok")
         if st != "ok":
-            if st.startswith("compile-failed") or st.startswith("generator-invalid"):
+            if st.startswith("compile-failed"):
+                # programs are valid by construction: Scenic refusing to compile one is a failing input
+                rep = dict(kind="program", name=r["name"], code=r["code"], mode2D=r["mode2D"], n=r.get("n", 1),
+                           labels=r["labels"], genline=r["genline"])
+                what = (f"program {r['name']} of the finite-discrete fragment cannot be compiled ({st[15:]}); "
+                        f"program:\n{r['code']}")
+                if ctx.violation("exact-pmf:crash", what, rep):
+                    found = True
+                ctx.hist("direct_oracle", "DIFF:compile")
+            elif st.startswith("generator-invalid"):
                 ctx.notes.append(f"{r['name']}: {st}") if len(ctx.notes) < 10 else None
             continue
         for f in r["features"]:
@@ -1669,6 +1742,10 @@ def run_cases(ctx, cases, pool, deadline=None):
         ctx.evaluations += r["paths"] - 1
         lines.append(f"C01 gen {r['n']} {r['genline']}")
         owners.append((r, "gen"))
+        lines.append(f"C01 spec {r['n']} {r['genline']}")
+        owners.append((r, "spec"))
+        lines.append(f"C01 hyp {r['genline']}")
+        owners.append((r, "hyp"))
         if r.get("extline") and r["extline"] != r["genline"]:
             lines.append(f"C01 gen {r['n']} {r['extline']}")
             owners.append((r, "ext"))
@@ -1680,7 +1757,19 @@ def run_cases(ctx, cases, pool, deadline=None):
             continue
         if out in ("bad-program", "bad-op"):
             raise Infra(f"Lean driver could not parse the {which} term of {r['name']}")
+        if which == "hyp":
+            # the main theorem speaks about this program only if its hypotheses hold for it
+            ctx.hist("theorem_hypotheses", out)
+            if out != "ok":
+                raise Infra(f"generated program {r['name']} is outside the hypotheses of the main theorem: {out}")
+            continue
         r["lean_" + which] = parse_pmf(out)
+        if which == "spec":
+            # the brute-force oracle (S) demands exactly what the Lean statement `specGenerate` says
+            if classify_diff(r["lean_spec"], r["spec"])[0]:
+                raise Infra(f"the Python declarative oracle and Lean's specGenerate disagree on {r['name']} "
+                            f"(harness/model inconsistency, not a property of /repo):\n{r['code']}")
+            ctx.hist("oracle_vs_lean_spec", "agree")
     for r in results:
         if r.get("status") != "ok":
             continue
